@@ -106,6 +106,53 @@ def _l2_fastqhandle(n: int, c0: int, c1: int, c2: int, k: int, maxh: int, stale:
     return True
 
 
+import singlecellmultiomics.bamProcessing.bamSplitByTag as BSmod
+from stubs.fakebam import SplitPysam, SerialPool
+from stubs.fakeread import FakeRead
+from vlib.astcut import cut_main
+from vlib.sym import pick
+
+BSmod.print = lambda *a, **k: None          # progress output is not the subject
+BSmod.Pool = SerialPool
+_split_driver = cut_main(BSmod, 'skip = set()', params=('args', 'output_prefix'), result='skip')   # the command-line multi-pass loop
+
+
+class _Args:
+    pass
+
+
+def _l3_bam_split(n: int, t0: int, t1: int, t2: int, t3: int, t4: int, maxh: int) -> bool:
+    """
+    pre: 1 <= n <= 5
+    pre: 0 <= t0 <= 3 and 0 <= t1 <= 3 and 0 <= t2 <= 3 and 0 <= t3 <= 3 and 0 <= t4 <= 3
+    pre: 1 <= maxh <= 3
+    post: _
+    """
+    # n records whose split tag takes one of three values (3 = record without the tag), at most maxh output files open at a time:
+    # the command-line driver makes as many passes as needed
+    vals = ['cellA', 'cellB', 'cellC']
+    tags = [pick([0, 1, 2, 3], t) for t in [t0, t1, t2, t3, t4][:n]]
+    reads = []
+    for i, t in enumerate(tags):
+        reads.append(FakeRead(query_name='r%d' % i, reference_name='chr1', reference_start=10 * i, cigartuples=[(0, 4)], seq='ACGT', qual='IIII',
+                              tags=({'SM': vals[t]} if t < 3 else {})))
+    ps = SplitPysam({'in.bam': reads})
+    BSmod.pysam = ps
+    a = _Args()
+    a.bamfile, a.tag, a.head, a.max_handles = 'in.bam', 'SM', None, pick([1, 2, 3], maxh - 1)
+    _split_driver(a, 'out/')
+    exp = {}
+    for i, t in enumerate(tags):
+        if t < 3:
+            exp.setdefault('out/%s.bam' % vals[t], []).append('r%d' % i)
+    got = {p: [r.query_name for r in rs] for p, rs in ps.out.items()}
+    if got != exp:
+        return False
+    if ps.open_now != 0 or ps.max_open > a.max_handles:
+        return False
+    return sorted(set(ps.indexed)) == sorted(exp)
+
+
 def preflight():
     """MemFS vs real gzip: 'w' then 'a' then 'a' must concatenate; 'w' truncates."""
     import gzip, tempfile, os, shutil
@@ -137,17 +184,21 @@ LEMMAS = [
     dict(name='L1_faults', fn='_l1_faults', engine='E1', timeout=_T, replay='replay.C19:replay',
          cases={'quick': [dict(id='n%d_%s' % (n, 'tr' if tr else 'perm'), pre=['n == %d' % n, 'transient == %s' % tr]) for n in (2, 3) for tr in (True, False)],
                 'thorough': [dict(id='n%d_%s' % (n, 'tr' if tr else 'perm'), pre=['n == %d' % n, 'transient == %s' % tr]) for n in (1, 2, 3, 4) for tr in (True, False)]}),
+    dict(name='L3_bam_split_by_tag', fn='_l3_bam_split', engine='E1', timeout=_T, replay='replay.C19:replay_split',
+         cases={'quick': [dict(id='n%d' % n, pre=['n == %d' % n] + ['t%d == 0' % i for i in range(n, 5)]) for n in (1, 2, 3, 4)],
+                'thorough': [dict(id='n%d_h%d' % (n, h), pre=['n == %d' % n, 'maxh == %d' % h] + ['t%d == 0' % i for i in range(n, 5)]) for n in (1, 2, 3, 4, 5) for h in (1, 2, 3)]}),
     dict(name='L2_fastqhandle_sc', fn='_l2_fastqhandle', engine='E1', timeout=_T, replay='replay.C19:replay_fh'),
 ]
 
 PROPERTY = dict(
     functions=['singlecellmultiomics.pyutils.handlelimiter.HandleLimiter.write/prune/close',
-               'singlecellmultiomics.fastqProcessing.fastqHandle.FastqHandle.__init__/write/close (single_cell=True)'],
+               'singlecellmultiomics.fastqProcessing.fastqHandle.FastqHandle.__init__/write/close (single_cell=True)',
+               'singlecellmultiomics.bamProcessing.bamSplitByTag.split_bam_by_tag + the multi-pass driver loop of its __main__ block (AST cut)'],
     bounds={'quick': dict(writes='<=4 over 3 paths', descriptor_limit_k='1..3', maxHandles='1..3', pruneEvery='1..3',
                           faults='EMFILE above k; one transient failure at open call 0..2; one permanently failing path'),
             'thorough': dict(writes='<=5 over 3 paths', descriptor_limit_k='1..3 (faults: 2..4)', maxHandles='1..3', pruneEvery='1..3')},
     outside=['validity of concatenated gzip members (zlib; exercised by the replay on the real file system)',
-             'bamSplitByTag (pysam handles)', 'more than 3 distinct target files'],
+             'bamSplitByTag: real BAM encoding / indexing (replay only), -head, tag values that need file-name cleaning', 'more than 3 distinct target files'],
     assumptions=['MemFS contract: w truncates, a appends, each open handle holds one descriptor, open raises EMFILE when k descriptors are in use',
                  'an escaping exception is legitimate only if the failing open() happened while no other handle was open',
                  'time.time replaced by a strictly increasing counter'],
